@@ -202,4 +202,202 @@ theorem wf_PrecertChainEntry : xPrecertChainEntry.wf = true := by decide
 theorem wf_SCTList (m : Nat) : (xSCTList m).wf = true := by
   simp [xSCTList, xSerializedSCT, Ty.wf, Fields.wf, Info.wf, Ty.pos, Fields.pos]
 
+/-! ## inverting `enc`: the shape of any value the encoder accepts (used for "accepts exactly") -/
+
+theorem enc_uint_inv (w : Nat) (v : Val) (x : Bytes) (h : enc (.uint w) v = .ok x) : ∃ n, v = .num n := by
+  cases v <;> simp only [enc] at h <;> first | exact ⟨_, rfl⟩ | cases h
+
+theorem enc_enum_inv (i : Info) (v : Val) (x : Bytes) (h : enc (.enum i) v = .ok x) : ∃ n, v = .num n := by
+  cases v <;> simp only [enc] at h <;> first | exact ⟨_, rfl⟩ | cases h
+
+theorem enc_arr_inv (k : Nat) (v : Val) (x : Bytes) (h : enc (.arr k) v = .ok x) : ∃ b, v = .bytes b := by
+  cases v <;> simp only [enc] at h <;> first | exact ⟨_, rfl⟩ | cases h
+
+theorem enc_bytes_inv (i : Info) (v : Val) (x : Bytes) (h : enc (.bytes i) v = .ok x) : ∃ b, v = .bytes b := by
+  cases v <;> simp only [enc] at h <;> first | exact ⟨_, rfl⟩ | cases h
+
+theorem enc_struct_inv (fs : Fields) (v : Val) (x : Bytes) (h : enc (.struct fs) v = .ok x) :
+    ∃ vs, v = .struct vs ∧ encFields [] [] [] fs vs = .ok x := by
+  cases v <;> simp only [enc] at h <;> first | exact ⟨_, rfl, h⟩ | cases h
+
+theorem enc_vec_inv (i : Info) (e : Ty) (v : Val) (x : Bytes) (h : enc (.vec i e) v = .ok x) :
+    ∃ vs body, v = .list vs ∧ encListWith (enc e) vs = .ok body := by
+  cases v <;> simp only [enc] at h <;> try (cases h; done)
+  rename_i vs
+  cases hb : encListWith (enc e) vs with
+  | error err => rw [hb] at h; cases h
+  | ok body => exact ⟨vs, body, rfl, hb⟩
+
+theorem encFields_nil_inv (env : Env) (men tak : List String) (vs : List Val) (x : Bytes)
+    (h : encFields env men tak .nil vs = .ok x) : vs = [] ∧ allTaken men tak = true := by
+  cases vs with
+  | nil =>
+    simp only [encFields] at h
+    split at h
+    · rename_i ht; exact ⟨rfl, ht⟩
+    · cases h
+  | cons v vs => simp [encFields] at h
+
+theorem encFields_plain_inv (env : Env) (men tak : List String) (name : String) (t : Ty) (rest : Fields) (vs : List Val) (x : Bytes)
+    (h : encFields env men tak (.plain name t rest) vs = .ok x) :
+    ∃ v vs' a b, vs = v :: vs' ∧ enc t v = .ok a ∧ encFields (envPush env name t v) men tak rest vs' = .ok b := by
+  cases vs with
+  | nil => simp [encFields] at h
+  | cons v vs' =>
+    simp only [encFields] at h
+    split at h
+    · cases h
+    rename_i a ha
+    split at h
+    · cases h
+    rename_i b hb
+    exact ⟨v, vs', a, b, rfl, ha, hb⟩
+
+/-- a variant field: either it is not the chosen one and the value is `absent`, or it is and the value encodes -/
+theorem encFields_variant_inv (env : Env) (men tak : List String) (name sel : String) (val : Nat) (t : Ty) (rest : Fields)
+    (vs : List Val) (x : Bytes) (h : encFields env men tak (.variant name sel val t rest) vs = .ok x) :
+    ∃ v vs' choice, vs = v :: vs' ∧ env.lookup sel = some choice ∧
+      ((choice ≠ val ∧ v = .absent ∧ encFields env (sel :: men) tak rest vs' = .ok x) ∨
+       (choice = val ∧ ∃ a b, enc t v = .ok a ∧ encFields env (sel :: men) (sel :: tak) rest vs' = .ok b)) := by
+  cases vs with
+  | nil => simp [encFields] at h
+  | cons v vs' =>
+    simp only [encFields] at h
+    split at h
+    · cases h
+    rename_i choice hl
+    refine ⟨v, vs', choice, rfl, hl, ?_⟩
+    split at h
+    · rename_i hne
+      split at h
+      · exact Or.inl ⟨hne, rfl, h⟩
+      · cases h
+    · rename_i heq
+      simp only [ne_eq, Decidable.not_not] at heq
+      split at h
+      · cases h
+      · split at h
+        · cases h
+        · split at h
+          · cases h
+          rename_i a ha
+          split at h
+          · cases h
+          rename_i b hb
+          exact Or.inr ⟨heq, a, b, ha, hb⟩
+
+theorem encListWith_shape {α : Type} (e : Ty) (f : α → Val) (hshape : ∀ v x, enc e v = .ok x → ∃ a, v = f a) :
+    ∀ (vs : List Val) (body : Bytes), encListWith (enc e) vs = .ok body → ∃ xs : List α, vs = xs.map f := by
+  intro vs
+  induction vs with
+  | nil => intro _ _; exact ⟨[], rfl⟩
+  | cons v vs ih =>
+    intro body h
+    simp only [encListWith] at h
+    split at h
+    · cases h
+    rename_i x hx
+    split at h
+    · cases h
+    rename_i y hy
+    obtain ⟨a, rfl⟩ := hshape v x hx
+    obtain ⟨xs, rfl⟩ := ih y hy
+    exact ⟨a :: xs, rfl⟩
+
+/-! ### the shapes of the CT structures -/
+
+theorem shape_ASN1Cert (v : Val) (x : Bytes) (h : enc xASN1Cert v = .ok x) : ∃ c, v = asn1CertVal c := by
+  obtain ⟨vs, rfl, h⟩ := enc_struct_inv _ _ _ h
+  obtain ⟨v1, vs1, a, b, rfl, h1, h⟩ := encFields_plain_inv _ _ _ _ _ _ _ _ h
+  obtain ⟨rfl, _⟩ := encFields_nil_inv _ _ _ _ _ h
+  obtain ⟨c, rfl⟩ := enc_bytes_inv _ _ _ h1
+  exact ⟨c, rfl⟩
+
+theorem shape_PreCert (v : Val) (x : Bytes) (h : enc xPreCert v = .ok x) : ∃ p, v = preCertVal p := by
+  obtain ⟨vs, rfl, h⟩ := enc_struct_inv _ _ _ h
+  obtain ⟨v1, vs1, a, b, rfl, h1, h⟩ := encFields_plain_inv _ _ _ _ _ _ _ _ h
+  obtain ⟨v2, vs2, a2, b2, rfl, h2, h⟩ := encFields_plain_inv _ _ _ _ _ _ _ _ h
+  obtain ⟨rfl, _⟩ := encFields_nil_inv _ _ _ _ _ h
+  obtain ⟨k, rfl⟩ := enc_arr_inv _ _ _ h1
+  obtain ⟨t, rfl⟩ := enc_bytes_inv _ _ _ h2
+  exact ⟨⟨k, t⟩, rfl⟩
+
+theorem shape_DigitallySigned (v : Val) (x : Bytes) (h : enc xDigitallySigned v = .ok x) : ∃ d, v = dsVal d := by
+  obtain ⟨vs, rfl, h⟩ := enc_struct_inv _ _ _ h
+  obtain ⟨v1, vs1, a, b, rfl, h1, h⟩ := encFields_plain_inv _ _ _ _ _ _ _ _ h
+  obtain ⟨v2, vs2, a2, b2, rfl, h2, h⟩ := encFields_plain_inv _ _ _ _ _ _ _ _ h
+  obtain ⟨rfl, _⟩ := encFields_nil_inv _ _ _ _ _ h
+  obtain ⟨ws, rfl, h1⟩ := enc_struct_inv _ _ _ h1
+  obtain ⟨w1, ws1, _, _, rfl, g1, h1⟩ := encFields_plain_inv _ _ _ _ _ _ _ _ h1
+  obtain ⟨w2, ws2, _, _, rfl, g2, h1⟩ := encFields_plain_inv _ _ _ _ _ _ _ _ h1
+  obtain ⟨rfl, _⟩ := encFields_nil_inv _ _ _ _ _ h1
+  obtain ⟨hh, rfl⟩ := enc_enum_inv _ _ _ g1
+  obtain ⟨ss, rfl⟩ := enc_enum_inv _ _ _ g2
+  obtain ⟨sig, rfl⟩ := enc_bytes_inv _ _ _ h2
+  exact ⟨⟨hh, ss, sig⟩, rfl⟩
+
+theorem shape_SCT (v : Val) (x : Bytes) (h : enc xSCT v = .ok x) : ∃ s, v = sctVal s := by
+  obtain ⟨vs, rfl, h⟩ := enc_struct_inv _ _ _ h
+  obtain ⟨v1, _, _, _, rfl, h1, h⟩ := encFields_plain_inv _ _ _ _ _ _ _ _ h
+  obtain ⟨v2, _, _, _, rfl, h2, h⟩ := encFields_plain_inv _ _ _ _ _ _ _ _ h
+  obtain ⟨v3, _, _, _, rfl, h3, h⟩ := encFields_plain_inv _ _ _ _ _ _ _ _ h
+  obtain ⟨v4, _, _, _, rfl, h4, h⟩ := encFields_plain_inv _ _ _ _ _ _ _ _ h
+  obtain ⟨v5, _, _, _, rfl, h5, h⟩ := encFields_plain_inv _ _ _ _ _ _ _ _ h
+  obtain ⟨rfl, _⟩ := encFields_nil_inv _ _ _ _ _ h
+  obtain ⟨ver, rfl⟩ := enc_enum_inv _ _ _ h1
+  obtain ⟨ws, rfl, h2⟩ := enc_struct_inv _ _ _ h2
+  obtain ⟨w1, _, _, _, rfl, g1, h2⟩ := encFields_plain_inv _ _ _ _ _ _ _ _ h2
+  obtain ⟨rfl, _⟩ := encFields_nil_inv _ _ _ _ _ h2
+  obtain ⟨id, rfl⟩ := enc_arr_inv _ _ _ g1
+  obtain ⟨ts, rfl⟩ := enc_uint_inv _ _ _ h3
+  obtain ⟨ext, rfl⟩ := enc_bytes_inv _ _ _ h4
+  obtain ⟨d, rfl⟩ := shape_DigitallySigned _ _ h5
+  exact ⟨⟨ver, id, ts, ext, d⟩, rfl⟩
+
+theorem shape_CertificateChain (v : Val) (x : Bytes) (h : enc xCertificateChain v = .ok x) : ∃ c, v = chainVal c := by
+  obtain ⟨vs, rfl, h⟩ := enc_struct_inv _ _ _ h
+  obtain ⟨v1, _, _, _, rfl, h1, h⟩ := encFields_plain_inv _ _ _ _ _ _ _ _ h
+  obtain ⟨rfl, _⟩ := encFields_nil_inv _ _ _ _ _ h
+  obtain ⟨ws, body, rfl, hb⟩ := enc_vec_inv _ _ _ _ h1
+  obtain ⟨xs, rfl⟩ := encListWith_shape xASN1Cert asn1CertVal shape_ASN1Cert ws body hb
+  exact ⟨xs, rfl⟩
+
+theorem shape_PrecertChainEntry (v : Val) (x : Bytes) (h : enc xPrecertChainEntry v = .ok x) : ∃ e, v = precertChainVal e := by
+  obtain ⟨vs, rfl, h⟩ := enc_struct_inv _ _ _ h
+  obtain ⟨v1, _, _, _, rfl, h1, h⟩ := encFields_plain_inv _ _ _ _ _ _ _ _ h
+  obtain ⟨v2, _, _, _, rfl, h2, h⟩ := encFields_plain_inv _ _ _ _ _ _ _ _ h
+  obtain ⟨rfl, _⟩ := encFields_nil_inv _ _ _ _ _ h
+  obtain ⟨p, rfl⟩ := shape_ASN1Cert _ _ h1
+  obtain ⟨ws, body, rfl, hb⟩ := enc_vec_inv _ _ _ _ h2
+  obtain ⟨xs, rfl⟩ := encListWith_shape xASN1Cert asn1CertVal shape_ASN1Cert ws body hb
+  exact ⟨⟨p, xs⟩, rfl⟩
+
+theorem shape_SCTList (m : Nat) (v : Val) (x : Bytes) (h : enc (xSCTList m) v = .ok x) : ∃ l, v = sctListVal l := by
+  obtain ⟨vs, rfl, h⟩ := enc_struct_inv _ _ _ h
+  obtain ⟨v1, _, _, _, rfl, h1, h⟩ := encFields_plain_inv _ _ _ _ _ _ _ _ h
+  obtain ⟨rfl, _⟩ := encFields_nil_inv _ _ _ _ _ h
+  obtain ⟨ws, body, rfl, hb⟩ := enc_vec_inv _ _ _ _ h1
+  have hsh : ∀ v x, enc xSerializedSCT v = .ok x → ∃ a, v = serializedSCTVal a := by
+    intro v x h
+    obtain ⟨vs, rfl, h⟩ := enc_struct_inv _ _ _ h
+    obtain ⟨v1, _, _, _, rfl, h1, h⟩ := encFields_plain_inv _ _ _ _ _ _ _ _ h
+    obtain ⟨rfl, _⟩ := encFields_nil_inv _ _ _ _ _ h
+    obtain ⟨c, rfl⟩ := enc_bytes_inv _ _ _ h1
+    exact ⟨c, rfl⟩
+  obtain ⟨xs, rfl⟩ := encListWith_shape xSerializedSCT serializedSCTVal hsh ws body hb
+  exact ⟨xs, rfl⟩
+
+theorem okOfEo {T : Ty} {v : Val} {a : Bytes} {o : Option Bytes} (hE : eo (enc T v) = o) (h : enc T v = .ok a) : o = some a := by
+  rw [← hE, h]; rfl
+
+/-- whatever the codec decodes has the Go layout of a value of the structure (given the shape lemma), and is RFC-accepted -/
+theorem dec_exact {α : Type} (T : Ty) (toVal : α → Val) (encR : α → Option Bytes) (decR : Bytes → Option (α × Bytes))
+    (hshape : ∀ v x, enc T v = .ok x → ∃ a, v = toVal a)
+    (hE : ∀ x a, enc T (toVal x) = .ok a → encR x = some a)
+    (h1 : ∀ x a r, encR x = some a → decR (a ++ r) = some (x, r))
+    (bs : Bytes) (v : Val) (r : Bytes) (h : dec T bs = .ok (v, r)) : ∃ x, v = toVal x ∧ decR bs = some (x, r) := by
+  obtain ⟨u, _, hu⟩ := Tls.enc_dec T bs r v h
+  obtain ⟨a, rfl⟩ := hshape v u hu
+  exact ⟨a, rfl, rfc_of_dec T toVal encR decR hE h1 bs a r h⟩
+
 end CtWire
